@@ -55,7 +55,7 @@ COMPONENTS = {
 ASSUMPTIONS = [
     "user-edited content = regular files only (symlink targets and directories carry no content to lose); U is computed from contents: a file belongs to U unless its bytes equal a text of the basis revision or a file the previous merge created / rewrote (the model's merge_modified: snapshot difference around the previous merge) - so the .THIS helper of an earlier conflict, although it holds the user's earlier bytes, is merge-written and not in U",
     "'kept' = byte-identical content in some regular file below the tree root after the command, wherever it is (contents are unique per edit, so a match is the user's file); 'clean three-way merge' = merge3 package on (text of the file id in the command's base revision, u, text in the incoming revision) without conflict regions",
-    "revert(backups=False) and remove(force=True) are explicit requests to discard the selected paths: nothing is demanded for files inside the selection, everything outside must be kept (byte-identical somewhere in the tree: reverting a selected file back into a directory that a merge had renamed takes the directory, and the unselected files in it, along; files renamed by the user are left out)",
+    "revert(backups=False) and remove(force=True) are explicit requests to discard the selected paths: nothing is demanded for files inside the selection, a path selects the file or directory that has it now or had it in the basis (selection is by file id), and a selected directory selects what it holds today; everything outside must be kept (byte-identical somewhere in the tree: reverting a selected file back into a directory that a merge had renamed takes the directory, and the unselected files in it, along; files renamed by the user are left out)",
     "a command that raises a BzrError has refused: U must then be intact in place; any other exception is a violation of its own",
     "guard remove_unknown_at_basis_path (reported defect): remove(keep_files=False, force=False) is not run when the selection holds an unknown file whose path the basis still versions (unversioned by a merge or remove --keep, then re-created by the user): the filtered iter_changes does not report it (C10 finding bzr_filter_unversioned_at_removed) and InventoryWorkingTree.remove deletes it; lifted in half of the runs once known_findings.json has an open entry [C12, known-defect, remove_unknown_at_basis_path], or with VERIF_UNGUARDED=1",
     "only 2a trees (the property's mechanisms - numbered backups, merge-hashes, remove's safety - are the bzr ones); no fault injection here: a failing transform is C13's property (open findings there would resurface under this id)",
@@ -487,6 +487,7 @@ def execute(sim, plan):
             basis_texts = {basis.get_file_text(q) for q, e in basis.iter_entries_by_dir() if e.kind == "file"}
         ids = {}
         basis_path = {}
+        dir_basis_path = {}
         for q in files_of(root):
             try:
                 ids[q] = w.path2id(q)
@@ -497,6 +498,17 @@ def execute(sim, plan):
                     basis_path[q] = basis.id2path(ids[q])
                 except Exception:  # noqa: BLE001 - NoSuchId (not a BzrError): not in the basis
                     pass
+            # the basis paths of the directories the file lives in now: naming one of those
+            # selects that directory (by file id) and with it what it holds today
+            for a in T.ancestors(q):
+                if a and a not in dir_basis_path:
+                    dir_basis_path[a] = None
+                    try:
+                        aid = w.path2id(a)
+                        if aid is not None:
+                            dir_basis_path[a] = basis.id2path(aid)
+                    except Exception:  # noqa: BLE001
+                        pass
         with basis.lock_read():
             basis_versioned = {q for q in ids if ids[q] is None and basis.is_versioned(q)}
     before = files_of(root, stat=(c == "uncommit"))
@@ -582,7 +594,14 @@ def execute(sim, plan):
 
     def selected(q):
         # a path selects the file that has it now and the file that had it in the basis
-        return selection is None or any(T.inside(s, q) or (q in basis_path and T.inside(s, basis_path[q])) for s in selection)
+        if selection is None:
+            return True
+        for s in selection:
+            if T.inside(s, q) or (q in basis_path and T.inside(s, basis_path[q])):
+                return True
+            if any(dir_basis_path.get(a) is not None and T.inside(s, dir_basis_path[a]) for a in T.ancestors(q) if a):
+                return True
+        return False
 
     if raised is not None:
         sim.probe("refused_" + type(raised).__name__)
